@@ -26,6 +26,10 @@ RULE = ('state = one table (or one ordered pair of tables for dataJoin, one type
         'Literal look-alikes: every table of <= N rows whose column a is drawn from {null, abc, true, false, True, FALSE, TRUE, '
         'Null, NULL, NaN, Infinity, -inf}: only the exact texts true/false/null are typed, the others are strings and the '
         'parse goes on (non-trivial: a string column holding a look-alike). '
+        'Month ends: for the years 2024, 2023, 1900, 2000, 0000, 9999 (thorough: more) x 12 months x days max-1, max, max+1 of the '
+        'longest length of the month x date / date-time texts (+ 5-digit years): the text alone, as first and as later cell of a '
+        'column; a day that exists by the reference civil calendar is a datetime, any other text stays a string and the table is '
+        'parsed (non-trivial: the text names no existing day). '
         'Calendar ends: every table of <= 3 rows whose column a is drawn from {null, 0001-01-01T00:00:00+23:59, '
         '9999-12-31T23:59:59-23:59, 9999-12-31T23:59:59Z, 0001-01-01T00:00:00Z, a valid date-time, abc} under UTC and DST zones: '
         'a text whose local time does not exist in years 1..9999 stays a string and the rest of the table is parsed '
@@ -1397,6 +1401,124 @@ def csv_case_shards(nrows):
 
 
 # ---------------------------------------------------------------------------------------------------------------------
+# family csv_dates: the month-end boundary grid. A text that names a day which exists (reference civil calendar) is a
+# datetime; a text with a valid month and a day within the month's MAXIMUM length that does not exist in that year
+# (2023-02-29, 1900-02-29), day max+1, year 0000 or a 5-digit year merely resembles a date: it stays a string, nothing
+# raises, the rest of the table is intact. Process zone UTC (runner).
+# ---------------------------------------------------------------------------------------------------------------------
+
+DATE_YEARS = {'quick': [2024, 2023, 1900, 2000, 0, 9999], 'thorough': [2024, 2023, 1900, 2000, 0, 9999, 2100, 1600, 4, 100]}
+DATE_FORMS = ['date', 'T10:00:00Z', 'T10:00:00+05:30']
+DATE_EXTRA = ['10000-01-01', '10000-01-01T10:00:00Z']
+DATE_OTHER = [None, 'abc', '2023-02-29', '2024-02-29']       # the other cell of a two-row column: null, string, look-alike, real date
+DATE_SECOND = [(None, 'null'), (1, 'num')]
+DATE_MODES = CSV_MODES + ['dataValidate']
+
+
+def date_grid(tier):
+    """(text, expected value) - the expected value is a datetime when the day exists, else the text itself."""
+    out = []
+    for year in DATE_YEARS[tier]:
+        for month in range(1, 13):
+            for day in (rd.MONTH_MAX[month - 1] - 1, rd.MONTH_MAX[month - 1], rd.MONTH_MAX[month - 1] + 1):
+                exists = rd.civil_exists(year, month, day)
+                base = f'{year:04d}-{month:02d}-{day:02d}'
+                for form in DATE_FORMS:
+                    text = base if form == 'date' else base + form
+                    if not exists:
+                        out.append((text, text))
+                    elif form == 'date':
+                        out.append((text, datetime.datetime(year, month, day)))              # local midnight
+                    elif form == 'T10:00:00Z':
+                        out.append((text, datetime.datetime(year, month, day, 10, 0)))        # process zone is UTC
+                    else:
+                        out.append((text, datetime.datetime(year, month, day, 4, 30)))        # 10:00 at +05:30 = 04:30 UTC
+    return out + [(t, t) for t in DATE_EXTRA]
+
+
+def date_other(i):
+    text = DATE_OTHER[i]
+    if text == '2024-02-29':
+        return text, datetime.datetime(2024, 2, 29)
+    return text, text
+
+
+def check_csv_dates(case, acc):
+    """case: {'cells': [[text, expected-kind]...]} is rebuilt from 'tier', 'grid' (index), 'pos' (None: one row; 0/1: position of
+    the grid cell in a two-row column), 'other' (index into DATE_OTHER), 'b' (indices into DATE_SECOND)."""
+    if case['tier'] not in _GRID:
+        _GRID[case['tier']] = date_grid(case['tier'])
+    grid = _GRID[case['tier']]
+    cell = grid[case['grid']]
+    if case['pos'] is None:
+        col1 = [cell]
+    else:
+        col1 = [cell, date_other(case['other'])] if case['pos'] == 0 else [date_other(case['other']), cell]
+    col2 = [DATE_SECOND[i] for i in case['b']]
+    values = [v for _, v in col1]
+    hit = isinstance(cell[1], str)
+    if len({rv.rtype(v) for v in values if v is not None}) > 1:
+        acc.unspecified += 1        # a real date next to a string: not a typed column (the first non-null cell decides in the code)
+        return hit
+    lines = [','.join(CSV_FIELDS)] + [','.join([rd.csv_quote('null' if t is None else t), rd.csv_quote(rd.cell_text(v, st))])
+                                      for (t, _), (v, st) in zip(col1, col2)]
+    want = [{'a': v, 'b': b} for v, (b, _) in zip(values, col2)]
+    text = '\n'.join(lines)
+    for k, mode in enumerate(DATE_MODES):
+        if case.get('variant', k) != k:
+            continue
+        if mode == 'one string':
+            ok, res = call(acc, 'dataParseCSV', [text])
+        elif mode == 'line strings':
+            ok, res = call(acc, 'dataParseCSV', list(lines))
+        elif mode == 'script':
+            ok, res = run_script(acc, CSV_SCRIPT, {'text': text})
+        else:
+            data = [{'a': 'null' if t is None else t, 'b': rd.cell_text(v, st)} for (t, _), (v, st) in zip(col1, col2)]
+            ok, res = call(acc, 'dataValidate', [data, True])
+        acc.traces += 1
+        c2 = dict(case, variant=k, op=f'{"dataValidate(rows, true)" if mode == "dataValidate" else "dataParseCSV as " + mode}', csv=lines)
+        if not ok:
+            acc.violation(c2, canon_flat(want), res, 'raised instead of keeping the date-like text as a string')
+        elif not isinstance(res, list) or any(not isinstance(r, dict) for r in res) or len(res) != len(want):
+            acc.violation(c2, canon_flat(want), canon_flat(res), 'did not return one row object per line (the parse was aborted)')
+        else:
+            for ri, (got, exp) in enumerate(zip(res, want)):
+                bad = [f for f in CSV_FIELDS if canon_flat(got.get(f)) != canon_flat(exp[f])]
+                if bad:
+                    acc.violation(c2, canon_flat(want), canon_flat(res),
+                                  f'row {ri} field {bad[0]}: read back {got.get(bad[0])!r} ({rv.rtype(got.get(bad[0]))}), expected {exp[bad[0]]!r} ({rv.rtype(exp[bad[0]])})')
+                    break
+    acc.outcome((rv.rtype(cell[1]), case['pos'], case.get('other')))
+    return hit
+
+
+_GRID = {}
+
+
+def csv_dates_size(tier):
+    n = len(date_grid(tier))
+    return n * len(DATE_SECOND) + 2 * n * len(DATE_OTHER) * len(DATE_SECOND) ** 2
+
+
+def fam_csv_dates(arg):
+    tier, cells = arg
+    acc = Acc('csv_dates')
+    for gi in cells:
+        cases = [{'tier': tier, 'grid': gi, 'pos': None, 'other': None, 'b': [b]} for b in range(len(DATE_SECOND))]
+        cases += [{'tier': tier, 'grid': gi, 'pos': pos, 'other': o, 'b': [b1, b2]} for pos in (0, 1) for o in range(len(DATE_OTHER))
+                  for b1 in range(len(DATE_SECOND)) for b2 in range(len(DATE_SECOND))]
+        for case in cases:
+            acc.cases += 1
+            acc.states += 1
+            if check_csv_dates(case, acc):
+                acc.nontrivial += 1
+        if gi % 97 == 13:
+            acc.sample({'text': date_grid(tier)[gi][0], 'expected': repr(date_grid(tier)[gi][1])})
+    return acc.result()
+
+
+# ---------------------------------------------------------------------------------------------------------------------
 # families
 # ---------------------------------------------------------------------------------------------------------------------
 
@@ -1459,17 +1581,22 @@ def families(tier):
         Family('csv_case', fam_csv_case, csv_case_shards(nrows),
                f'every table of <= {nrows} rows, column a from {CASE_CELLS[1:]} and null, column b from {{null, false}} x 3 reading modes; '
                'columns mixing true/false with other texts are counted UNSPECIFIED', expected=csv_case_size(nrows)),
+        Family('csv_dates', fam_csv_dates, [(tier, c) for c in split(list(range(len(date_grid(tier)))), 24)],
+               f'month-end grid: years {DATE_YEARS[tier]} x 12 months x days max-1, max, max+1 (max = the longest the month ever gets) x forms '
+               f'{DATE_FORMS} + {DATE_EXTRA} = {len(date_grid(tier))} texts; each alone, and as first / later cell of a two-row column whose other cell '
+               f'is one of {DATE_OTHER}; column b from {{null, 1}}; read by dataParseCSV (3 modes) and dataValidate(rows, true)',
+               expected=csv_dates_size(tier)),
     ]
 
 
 _CHECKS = {'filter': check_filter, 'sort': check_sort, 'top': check_top, 'aggregate': check_aggregate, 'calc': check_calc,
            'join_keys': check_join_keys, 'join_names': check_join_names, 'script': check_script, 'csv': check_csv,
-           'scope': check_scope, 'aggregate_num': check_aggregate_num, 'keykinds': check_keykinds, 'join_keykinds': check_join_keykinds, 'csv_tz': check_csv_tz, 'csv_edge': check_csv_edge, 'csv_case': check_csv_case}
+           'scope': check_scope, 'aggregate_num': check_aggregate_num, 'keykinds': check_keykinds, 'join_keykinds': check_join_keykinds, 'csv_tz': check_csv_tz, 'csv_edge': check_csv_edge, 'csv_case': check_csv_case, 'csv_dates': check_csv_dates}
 
 
 def replay(family, case):
     acc = Acc(family)
-    keep = {k: v for k, v in case.items() if k in ('rows', 'left', 'right', 'types', 'cols', 'variant', 'tz')}
+    keep = {k: v for k, v in case.items() if k in ('rows', 'left', 'right', 'types', 'cols', 'variant', 'tz', 'tier', 'grid', 'pos', 'other', 'b')}
     _CHECKS[family](keep, acc)
     res = acc.result()
     return {'differs': bool(res['nviol'] or res['nknown']), 'violations': res['violations'] + res['known_violations'],
